@@ -55,7 +55,7 @@ func zzRootDesc() *thrift_reflection.TypeDescriptor {
 // ---- the reference semantics of a path set -------------------------------------------------
 
 type zzStep struct {
-	kind int // 0 field id, 1 list index, 2 string key, 3 int key, 4 '*' among fields, 5 '*' among elements
+	kind int // 0 field id, 1 list index, 2 string key, 3 int key, 4 '*' among fields, 5 '*' among list elements, 6 '*' among map entries
 	n    int
 	s    string
 }
@@ -116,6 +116,8 @@ func zzPathStr(p []zzStep) string {
 			s += ".*"
 		case 5:
 			s += "[*]"
+		case 6:
+			s += "{*}"
 		}
 	}
 	return s
@@ -219,6 +221,7 @@ func zzPathLists() [][][]zzStep {
 	sk := func(s string) zzStep { return zzStep{kind: 2, s: s} }
 	ik := func(n int) zzStep { return zzStep{kind: 3, n: n} }
 	anyE := zzStep{kind: 5}
+	anyK := zzStep{kind: 6}
 	return [][][]zzStep{
 		{{f(1)}},
 		{{f(2)}, {f(8)}},
@@ -237,6 +240,9 @@ func zzPathLists() [][][]zzStep {
 		{{f(63)}, {f(64)}},
 		{{f(9), f(3), ix(0)}},
 		{{f(9), f(3), ix(1)}, {f(9), f(3), ix(2)}},
+		// '*' over the entries of a string-keyed map with a deeper path (the wildcard answer of Str)
+		{{f(5), anyK, f(2)}, {f(4), anyE, f(1)}},
+		{{f(5), anyK, f(3), ix(0)}},
 	}
 }
 
@@ -394,8 +400,8 @@ func c13Variant(label, options string, zeroReq bool) *Prop {
 		Prepare: func(r *runner) error {
 			prog := corpusMask()
 			r.spec.Harnesses = []Harness{
-				{Func: "H_C13_write", Quick: tuples(seq(0, 16), seq(0, 1)), Covers: []string{"end"}},
-				{Func: "H_C13_read", Quick: tuples(seq(0, 16), seq(0, 1)), Covers: []string{"end"}},
+				{Func: "H_C13_write", Quick: tuples(seq(0, 18), seq(0, 1)), Covers: []string{"end"}},
+				{Func: "H_C13_read", Quick: tuples(seq(0, 18), seq(0, 1)), Covers: []string{"end"}},
 				{Func: "H_C13_nil", Covers: []string{"end"}},
 			}
 			return prepareGenerated(r, prog, genConfig{Options: options}, entryC13(zeroReq))
@@ -406,7 +412,7 @@ func init() {
 	register(&Prop{
 		ID: "C13", QuickBudget: 25 * time.Minute, ThoroughBudget: 90 * time.Minute,
 		Functions:   []string{"generated Write/Read with with_field_mask (FieldWriteMap/Set/List, FieldReadMap/Set/List, Set_FieldMask propagation) for the corpus fm.thrift", "fieldmask.NewFieldMask, (*FieldMask).Field/Int/Str/All/Exist", "thrift_reflection.RegisterAST and descriptor lookups", "generator/golang/thrift.go ZeroWriter output (exercised through the generated code)"},
-		Bounds:      "root struct with required/optional scalars, nested struct, list<struct>, map<string,struct>, map<i32,string>, set<string>, required struct; 17 designed path lists (field by id, list indices incl. out of range, string and int keys present and absent, '*' over elements, nested combinations) x white/black; all scalar leaves of the value symbolic (full width), 2 list elements, 2 map entries with concrete keys; configurations: default, field_mask_halfway, field_mask_zero_required",
+		Bounds:      "root struct with required/optional scalars, nested struct, list<struct>, map<string,struct>, map<i32,string>, set<string>, required struct; 19 designed path lists (field by id, list indices incl. out of range, string and int keys present and absent, '*' over elements, nested combinations) x white/black; all scalar leaves of the value symbolic (full width), 2 list elements, 2 map entries with concrete keys; configurations: default, field_mask_halfway, field_mask_zero_required",
 		Assumptions: []string{"the path lists are designed (sampled); values are solver-decided", "descriptors come from thrift_reflection.RegisterAST on the same IDL text; the embedded descriptor bytes of *-reflection.go (gzip+meta) are not executed (BuildFileDescriptor is stubbed)", "map keys are concrete so that mask lookups by key do not fork"},
 		Variants: []*Prop{
 			c13Variant("default", "with_reflection,with_field_mask", false),
